@@ -233,7 +233,7 @@ def main(argv=None):
                 broken.append("UNDECIDED " + t + ": " + r["engine_error"])
             functions_under_contract.append({"target": t, "degraded": True, "reason": r["engine_error"]})
             continue
-        if r["canary"] != "ok":
+        if r["canary"] != "ok" and not r["failed"]:
             broken.append("%s: %s" % (t, r["canary"]))
         if len(r["obligations"]) + r["trivial"] == 0:
             broken.append("%s: zero obligations generated" % t)
